@@ -354,6 +354,10 @@ def fresh_index(name, universe, space=None, kinds=("Index", "MultiIndex")):
     kind = kinds[k]
     if kind == "Index":
         return fresh_array(name, universe, space=space, is_index=True)
+    if kind == "RangeIndex":
+        # the default row index of every frame that was not given one (and of its slices: any step)
+        step = [1, 2, 3, -1, -2][cur().choose([(str(s_), None) for s_ in (1, 2, 3, -1, -2)], f"step({name})")]
+        return PI.RangeIndexVal.make_range(name, pandas_engine.Engine.dtype("int64"), step, space=space)
     if kind == "MultiIndex":
         if space is None:
             n = core.sym_int(f"len({name})")
@@ -372,7 +376,7 @@ class InferIndexStatistics(Contract):
         PI.install(I)
 
     def make_args(self):
-        return {"index": fresh_index("index", REPRESENTATIVES, kinds=("Index", "MultiIndex", "not-an-index"))}
+        return {"index": fresh_index("index", REPRESENTATIVES, kinds=("Index", "RangeIndex", "MultiIndex", "not-an-index"))}
 
     def ensures(self, result, old, index):
         return index_stats_spec(result, index)
@@ -382,6 +386,45 @@ class InferIndexStatistics(Contract):
         if isinstance(index, MultiIndexVal):
             return SymSeq("index_statistics", index.nlevels, lambda k: component_stats_value(index.level(k)), pre=False)
         return ListObj([component_stats_value(index)])
+
+    def concretize(self, rec):
+        m = rec.get("model") or {}
+
+        def thunk():
+            """the verifier's counterexample (a RangeIndex given by start / stop / step) and a few strided slices, on the real function:
+            the bounds are the smallest and the largest label, and the inferred schema accepts its own frame"""
+            import warnings
+
+            import pandas as pd
+            import pandera as pa
+            from pandera.schema_statistics.pandas import infer_index_statistics
+
+            warnings.simplefilter("ignore")
+            cands = []
+            try:
+                cands.append(pd.RangeIndex(int(m["index.start"]), int(m["index.stop"]), int(m["index.step"])))
+            except (KeyError, ValueError, TypeError):
+                pass
+            cands += [pd.RangeIndex(0, 9, 2), pd.RangeIndex(1, 9, 3), pd.RangeIndex(0, -3, -2), pd.RangeIndex(5)]
+            obs, bad = {}, False
+            for ix in cands:
+                if len(ix) == 0:
+                    continue
+                st = infer_index_statistics(ix)[0]["checks"]
+                got = (st["greater_than_or_equal_to"], st["less_than_or_equal_to"])
+                want = (float(min(ix)), float(max(ix)))
+                df = pd.DataFrame({"a": range(len(ix))}, index=ix)
+                try:
+                    pa.infer_schema(df).validate(df)
+                    own = "accepted"
+                except (pa.errors.SchemaError, pa.errors.SchemaErrors) as e:
+                    own = "REJECTED by its own inferred schema"
+                if got != want or own != "accepted":
+                    bad = True
+                    obs[repr(ix)] = {"inferred bounds": got, "labels min / max": want, "infer_schema(D).validate(D)": own}
+            return bad, obs or "bounds are the extreme labels for every probed RangeIndex"
+
+        return thunk
 
 
 def frame_stats_spec(result, df):
